@@ -121,8 +121,12 @@ class EncDesc:
         args = codec.symbolic_args(fi)
         self.P = args[0] if args else None
         self.interp, outs = codec.run(prog, fi, args, policy)
-        self.paths = [EncPath(o.state.kn, o.value, self.P) for o in outs
-                      if o.kind == 'return']
+        self.paths = []
+        for o in outs:
+            if o.kind == 'return':
+                ep = EncPath(o.state.kn, o.value, self.P)
+                ep.store = o.state.store
+                self.paths.append(ep)
         self.raises = [o for o in outs if o.kind == 'raise']
 
     def raise_types(self):
